@@ -180,7 +180,7 @@ def relay_side(ctx):
     if res.violated:
       raise Machinery('Relay.tla violates %s: %s' % (res.violated, [a for a, _ in res.cex]))
   cfgs = [dict(nd=1, maxq=2, mpm=5, flow=True, dynamic=False, nr=2),
-          dict(nd=1, maxq=1, mpm=1, flow=True, dynamic=False, nr=1),        # low watermark 0.8 of one datapoint
+          dict(nd=1, maxq=1, mpm=1, flow=True, dynamic=False, nr=1, protocol='line'),        # low watermark 0.8 of one datapoint; plaintext client
           dict(nd=1, maxq=3, mpm=2, flow=True, dynamic=True, max_retries=1, nr=2),    # the only destination comes and goes
           dict(nd=2, maxq=4, mpm=10, flow=True, dynamic=True, max_retries=1, nr=1),
           dict(nd=3, maxq=3, mpm=2, flow=True, dynamic=True, max_retries=1, nr=2)]
